@@ -4,6 +4,8 @@
 From ClapModel Require Import Base.Bytes Base.Machine.
 From ClapModel Require Import Parse.Cmd Parse.Build Parse.Errors Parse.Parser.
 From ClapModel Require Import Reentrancy.ReentrancyModel Reentrancy.ReentrancyProofs Reentrancy.ReentrancyParse.
+From ClapModel Require Import Reentrancy.ReentrancyDym Reentrancy.ReentrancyGlobals Reentrancy.ReentrancyMsg Reentrancy.ReentrancyBuild.
+From ClapModel Require Import Parse.Valid Parse.Matcher ParseProofs.Dispatch.
 From Coq Require Import List.
 From RecordUpdate Require Import RecordSet.
 Import RecordSetNotations ListNotations.
@@ -127,3 +129,160 @@ Theorem C11_history_independence : forall h b c argv,
   /\ err_of (fst (fst (parse_mut (run c h) argv))) = err_of (fst (fst (parse_mut c argv))).
 Proof. exact history_independence. Qed.
 Print Assumptions C11_history_independence.
+
+(** ---- third pass (1a): the failing parse that mutates.  [parse_mut_dym fires] = the parse plus, when
+    [fires] (the parse ended in [Parser::did_you_mean_error] and strsim::jaro found no similar long flag:
+    not modelled, both values covered), [_build_self] on every subcommand of the deepest level reached
+    ([suggestions::did_you_mean_flag]). ---- *)
+
+(** on the path of the parse itself the guards of the modelled mutation never block: it reaches the
+    failing level and builds each of its subcommands (built, not named) *)
+Theorem C11_dym_reaches_failing_level : forall path root c,
+  s_built (c_set c) = true -> (root = true \/ is_some (c_bin_name c) = true) ->
+  sugg_build_at root (touch c path) path = touch_build c path.
+Proof. exact sugg_after_touch. Qed.
+Print Assumptions C11_dym_reaches_failing_level.
+
+Theorem C11_dym_state : forall c argv,
+  snd (parse_mut_dym true c argv)
+  = touch_build (build_self (fst (set_bin c argv))) (trace_path (snd (fst (parse_mut c argv)))).
+Proof. exact dym_state. Qed.
+Print Assumptions C11_dym_state.
+
+Theorem C11_dym_level_built : forall path c k,
+  node_at (touch_build c path) path = Some k -> Forall (fun s => s_built (c_set s) = true) (c_subs k).
+Proof. exact touch_build_level_built. Qed.
+Print Assumptions C11_dym_level_built.
+
+(** the mutating parse preserves the normal form, hence every history that contains such parses *)
+Theorem C11_dym_preserves_normal_form : forall n b c x,
+  good_name b = true -> xop_under b c x = true -> xis_build x = false ->
+  norm n b (fst (xstep c x)) = norm n b c.
+Proof. exact xstep_normal_form. Qed.
+Print Assumptions C11_dym_preserves_normal_form.
+
+Theorem C11_history_normal_form_dym : forall h n b c,
+  good_name b = true -> xhist_ok b c h = true -> norm n b (xrun c h) = norm n b c.
+Proof. exact xhistory_normal_form. Qed.
+Print Assumptions C11_history_normal_form_dym.
+
+(** two commands with the same normal form to every depth: every level the parse visits (parser levels
+    and the levels of the `help <path>` walk) has the same own definition -- arguments including the
+    inherited global arguments, in order; settings; version; bin / display name *)
+Theorem C11_visited_levels_normal_form : forall fuel c1 c2 toks st,
+  (forall n, norm_children n c1 = norm_children n c2) ->
+  map visit_own (parse_trace fuel c1 toks st) = map visit_own (parse_trace fuel c2 toks st).
+Proof. exact trace_own_agree. Qed.
+Print Assumptions C11_visited_levels_normal_form.
+
+(** history independence for histories that contain FAILING parses which build subcommands behind the
+    caller's back: the later parse still gets the fresh parser result, names the subcommands
+    ([_build_subcommand] must overwrite bin_name / usage_name of a subcommand that is already built) and
+    finds the global arguments at every level it visits *)
+Theorem C11_history_independence_dym : forall h b c argv,
+  good_name b = true -> xhist_ok b c h = true ->
+  argv_under b (xrun c h) argv = true -> argv_under b c argv = true ->
+  parse_result (xrun c h) argv = parse_result c argv
+  /\ parse_names (xrun c h) argv = parse_names c argv
+  /\ err_of (fst (fst (parse_mut (xrun c h) argv))) = err_of (fst (fst (parse_mut c argv)))
+  /\ parse_levels (xrun c h) argv = parse_levels c argv.
+Proof. exact history_independence_dym. Qed.
+Print Assumptions C11_history_independence_dym.
+
+(** ---- third pass (1b): the propagation of global values runs on the mutated tree
+    ([get_used_global_args] on [self] after the parser returned); the matches are insertion-ordered maps,
+    so the order of the collected ids is observable through [ArgMatches::ids()]. ---- *)
+
+(** the subcommand chain recorded in the parser result follows the nodes this very parse touched: each
+    is settled (built and named by its parent), or it is the last one (an external subcommand) *)
+Theorem C11_recorded_chain_follows_touched : forall fuel c toks st0 fu,
+  mt_sub (mt st0) = None -> nodup_ids (all_subcommand_names c) = true ->
+  holds (fun st => chain_ok fu (touch c (trace_path (parse_trace fuel c toks st0))) (mt_sub (mt st)))
+        (fun st => chain_ok fu (touch c (trace_path (parse_trace fuel c toks st0))) (mt_sub (mt st)))
+        (get_matches_with fuel c toks st0).
+Proof. exact gmw_chain_ok. Qed.
+Print Assumptions C11_recorded_chain_follows_touched.
+
+(** on such a chain [get_used_global_args] returns the same LIST (ids, order, multiplicities) for two
+    trees with the same normal form to every depth *)
+Theorem C11_used_globals_normal_form : forall f c1 c2 m,
+  (forall n, norm_children n c1 = norm_children n c2) ->
+  chain_ok f c1 (ms_sub m) -> chain_ok f c2 (ms_sub m) ->
+  used_global_args f c1 m = used_global_args f c2 m.
+Proof. exact uga_agree. Qed.
+Print Assumptions C11_used_globals_normal_form.
+
+Theorem C11_valid_root_names_distinct : forall c, valid c = true -> root_names_distinct c = true.
+Proof. exact valid_root_names_distinct. Qed.
+Print Assumptions C11_valid_root_names_distinct.
+
+(** the COMPLETE outcome of the next parse -- matches of every level after [propagate_globals], or the
+    error -- after any finite history (failing and mutating parses, renders, clones) is the fresh one *)
+Theorem C11_history_outcome : forall h b c argv,
+  good_name b = true -> xhist_ok b c h = true ->
+  argv_under b (xrun c h) argv = true -> argv_under b c argv = true ->
+  root_names_distinct c = true ->
+  fst (fst (parse_mut (xrun c h) argv)) = fst (fst (parse_mut c argv)).
+Proof. exact history_outcome. Qed.
+Print Assumptions C11_history_outcome.
+
+(** in particular the ids of every level come in the same order *)
+Theorem C11_history_ids_order : forall h b c argv,
+  good_name b = true -> xhist_ok b c h = true ->
+  argv_under b (xrun c h) argv = true -> argv_under b c argv = true ->
+  root_names_distinct c = true ->
+  outcome_ids (fst (fst (parse_mut (xrun c h) argv))) = outcome_ids (fst (fst (parse_mut c argv))).
+Proof. exact history_ids_order. Qed.
+Print Assumptions C11_history_ids_order.
+
+(** ---- third pass (3): the name-dependent lines of the messages: the version line
+    ([_render_version]: display name, version) and the head of the usage line ([get_usage_name_fallback]:
+    the usage_name that [_build_subcommand] assigns from the parent's current bin name, a string [mid]
+    rendered from the parent's own definition -- ANY function of it -- and the subcommand's names) of
+    every level the parse visits are the same on a reused (any history, failing and mutating parses
+    included), a cloned and a fresh definition; so is the reported error. ---- *)
+Theorem C11_history_messages : forall mid h b c argv,
+  good_name b = true -> xhist_ok b c h = true ->
+  argv_under b (xrun c h) argv = true -> argv_under b c argv = true ->
+  parse_lines mid (xrun c h) argv = parse_lines mid c argv
+  /\ err_of (fst (fst (parse_mut (xrun c h) argv))) = err_of (fst (fst (parse_mut c argv))).
+Proof. exact history_messages. Qed.
+Print Assumptions C11_history_messages.
+
+(** the representation of usage_name by bin_name is consistent: for a subcommand without flag names and
+    a parent without required arguments ([mid] = one space) the stored bin_name IS that usage_name *)
+Theorem C11_bin_name_is_usage_name : forall p s,
+  c_long_flag s = None -> c_short_flag s = None ->
+  c_bin_name (prepare p s) = Some (usage_name_at (fun _ => [32%N]) p (prepare p s))
+  \/ (c_bin_name p = None /\ c_bin_name (prepare p s) = Some (c_name s)).
+Proof. exact prepared_bin_is_usage_name_plain. Qed.
+Print Assumptions C11_bin_name_is_usage_name.
+
+(** ---- third pass (4), PARTIAL: histories containing [build()].  The recorded finding
+    C11-help-tree-after-build is delimited as a boolean family of DEFINITIONS: it needs a node with an
+    auto-generated help subcommand, i.e. a definition outside [nohelp_tree] (help subcommand disabled at
+    the node and all its subcommands to the given depth).  Full statement (not proved):
+      forall h (may contain Build) b c argv, nohelp_tree (all depths) c = true -> hist under b ->
+        parse_result (run c h) argv = parse_result c argv /\ parse_names ... /\ err_of ...
+    Proved: the tree-building half of [build()], [_build_recursive(true)]; missing:
+    [_build_bin_names_internal] (BinNameBuilt marks make the trees unequal as records). ---- *)
+
+(** inside the class [_build_self(expand_help_tree = true)] is [_build_self(false)] *)
+Theorem C11_expand_irrelevant_without_help_sub : forall c,
+  s_disable_help_sub (c_gset c) = true -> build_self_x true c = build_self c.
+Proof. exact expand_irrelevant. Qed.
+Print Assumptions C11_expand_irrelevant_without_help_sub.
+
+(** building every node beforehand, to any fuel, is absorbed by the normal form at every depth: with
+    [expand_help_tree = false] for every definition, with [true] inside the class *)
+Theorem C11_build_tree_preserves_normal_form_partial : forall n b f e c,
+  (e = true -> nohelp_tree f c = true) ->
+  norm n b (build_recursive_x f e c) = norm n b c.
+Proof. exact build_tree_normal_form. Qed.
+Print Assumptions C11_build_tree_preserves_normal_form_partial.
+
+Theorem C11_build_subtree_preserves_normal_form_partial : forall n f e p sc,
+  (e = true -> nohelp_tree f sc = true) ->
+  norm_sub n p (build_recursive_x f e sc) = norm_sub n p sc.
+Proof. exact norm_sub_build_recursive. Qed.
+Print Assumptions C11_build_subtree_preserves_normal_form_partial.
